@@ -160,14 +160,8 @@ func TestC07(t *testing.T) {
 			}
 			c.Items = append(c.Items, c07Item{Text: text, Want: p.Skel, Comments: commentSkels(r.Comments)})
 		}
-		// the property presupposes accepted commands: a command go.sh rejects
-		// on its own (a known finding of C02) is not this property's business
-		for _, it := range c.Items {
-			if _, _, err := parser.ParseCommands(nil, "c07", it.Text); err != nil {
-				st.Class("history_dropped_command_not_accepted_alone")
-				return
-			}
-		}
+		// every item is a complete command of the grammar: a call that fails
+		// has not consumed "precisely the text of one complete command"
 		jr.begin("C07", "stream", c)
 		err := checkC07(c)
 		jr.end()
